@@ -37,6 +37,17 @@ ENTRIES = [
     V("S-v-gae-static-split-same", "C03", (RB, "        next_non_terminals = 1.0 - self.dones.astype(float)", "        if self.dones.ndim == 1:\n            next_non_terminals = 1.0 - self.dones.astype(float)\n        else:\n            next_non_terminals = 1.0 - self.dones.astype(float)")),
     M("S-gae-static-split-wrong-branch", "C03", "C03", (RB, "        next_non_terminals = 1.0 - self.dones.astype(float)", "        if self.dones.ndim == 1:\n            next_non_terminals = 1.0 - self.dones.astype(float)\n        else:\n            next_non_terminals = jnp.ones_like(self.dones, dtype=float)")),
     M("S-dqn-loss-static-split", "C07", "C07", (DQN, "        not_terminal = (~batch.dones | batch.timeouts).astype(float)", "        if gamma == 1.0:\n            not_terminal = jnp.ones_like(batch.rewards)\n        else:\n            not_terminal = (~batch.dones | batch.timeouts).astype(float)")),
+    # ---------------------------------------------------------------- rules prompted by the sixth seeding round
+    M("S6-gymnax-adapter-eq-by-name", ["C01", "C11"], ["C01.8", "C11.1"], ("lerax/compatibility/gymnax.py", "    def __init__(self, env: AbstractEnv[StateType, Array, Array, Any]):\n        self.env = env\n", "    def __init__(self, env: AbstractEnv[StateType, Array, Array, Any]):\n        self.env = env\n\n    def __eq__(self, other):\n        return isinstance(other, LeraxToGymnaxEnv) and self.env.name == other.env.name\n\n    def __hash__(self):\n        return hash(self.env.name)\n")),
+    V("S6-v-gymnax-adapter-eq-by-env", ["C01", "C11"], ("lerax/compatibility/gymnax.py", "    def __init__(self, env: AbstractEnv[StateType, Array, Array, Any]):\n        self.env = env\n", "    def __init__(self, env: AbstractEnv[StateType, Array, Array, Any]):\n        self.env = env\n        self.state = None\n\n    def __eq__(self, other):\n        return isinstance(other, LeraxToGymnaxEnv) and self.env == other.env and self.state == other.state\n\n    def __hash__(self):\n        return hash(id(self.env))\n")),
+    M("S6-dict-space-keeps-callers-ordereddict", "C14", "C14.10", ("lerax/space/dict.py", "        self.spaces = OrderedDict(spaces)", "        self.spaces = spaces if isinstance(spaces, OrderedDict) else OrderedDict(spaces)")),
+    M("S6-deserialize-literal-is-file-guard", "C18", "C18.2", ("lerax/utils.py", "        return eqx.tree_deserialise_leaves(\n            path, eqx.filter_eval_shape(cls, *args, **kwargs)\n        )", "        if not Path(path).is_file():\n            raise FileNotFoundError(path)\n        return eqx.tree_deserialise_leaves(\n            path, eqx.filter_eval_shape(cls, *args, **kwargs)\n        )")),
+    V("S6-v-deserialize-guard-on-completed-name", "C18", ("lerax/utils.py", "        return eqx.tree_deserialise_leaves(\n            path, eqx.filter_eval_shape(cls, *args, **kwargs)\n        )", "        return eqx.tree_deserialise_leaves(\n            Path(path), eqx.filter_eval_shape(cls, *args, **kwargs)\n        )")),
+    M("S6-rescale-template-from-raw-bounds", ["C13", "C02"], ["C13.5", "C02.5"], ("lerax/wrapper/utils.py", "    min = jnp.broadcast_to(jnp.asarray(min, dtype=float), box.shape)\n    max = jnp.broadcast_to(jnp.asarray(max, dtype=float), box.shape)", "    min = jnp.broadcast_to(min, box.shape)\n    max = jnp.broadcast_to(max, box.shape)")),
+    V("S6-v-rescale-template-dtype-float", ["C13", "C02"], ("lerax/wrapper/utils.py", "    gradient = jnp.ones_like(min)", "    gradient = jnp.ones_like(min, dtype=float)")),
+    M("S6-evaluate-action-forgets-mask", ["C08", "C04"], ["C08.11", "C04.9"], ("lerax/policy/actor_critic/mlp.py", "        action_dist = self.action_head(features, action_mask=action_mask)\n        value = self.value_head(features)\n        log_prob = action_dist.log_prob(action)", "        action_dist = self.action_head(features)\n        value = self.value_head(features)\n        log_prob = action_dist.log_prob(action)")),
+    M("S6-bernoulli-own-sample", ["C16", "C15"], ["C16.6", "C15.1"], ("lerax/distribution/bernoulli.py", "    def mask(self, mask: Bool[Array, \" dims\"]) -> Bernoulli:", "    def sample(self, key):\n        return (self.logits > 0)\n\n    def mask(self, mask: Bool[Array, \" dims\"]) -> Bernoulli:")),
+    M("S6-dqn-learning-starts-rounded-up", ["C05", "C10"], ["C05.6", "C10.7"], (DQN, "        self.learning_starts = learning_starts", "        self.learning_starts = max(learning_starts, batch_size)")),
     # ---------------------------------------------------------------- structural restylings met in the second behaviour-preserving round, and broken twins
     V("R2-v-ppo-flatten-hoisted", "C09", (PPO, "    def train(\n", "    def _epoch_on_flat(self, policy, opt_state, flat_buffer, *, key):\n        indices = flat_buffer.batch_indices(self.batch_size, key=key)\n\n        def batch_scan(carry, batch_indices):\n            policy, opt_state = carry\n            batch = flat_buffer.gather(batch_indices)\n            policy, opt_state, stats = self.train_batch(policy, opt_state, batch)\n            return (policy, opt_state), stats\n\n        (policy, opt_state), stats = filter_scan(batch_scan, (policy, opt_state), indices)\n        stats = jax.tree.map(jnp.mean, stats)\n        return policy, opt_state, stats\n\n    def train(\n"), (PPO, "            policy, opt_state, stats = self.train_epoch(\n                policy, opt_state, buffer, key=key\n            )\n            return (policy, opt_state), stats\n\n        (policy, opt_state), stats = filter_scan(\n            epoch_scan, (policy, opt_state), jr.split(key, self.num_epochs)\n        )", "            policy, opt_state, stats = self._epoch_on_flat(\n                policy, opt_state, flat_buffer, key=key\n            )\n            return (policy, opt_state), stats\n\n        flat_buffer = buffer.flatten_axes()\n        outer_key = key\n        (policy, opt_state), stats = filter_scan(\n            epoch_scan, (policy, opt_state), jr.split(key, self.num_epochs)\n        )")),
     M("R2-ppo-flatten-hoisted-same-key-every-epoch", "C09", "C09.4", (PPO, "    def train(\n", "    def _epoch_on_flat(self, policy, opt_state, flat_buffer, *, key):\n        indices = flat_buffer.batch_indices(self.batch_size, key=key)\n\n        def batch_scan(carry, batch_indices):\n            policy, opt_state = carry\n            batch = flat_buffer.gather(batch_indices)\n            policy, opt_state, stats = self.train_batch(policy, opt_state, batch)\n            return (policy, opt_state), stats\n\n        (policy, opt_state), stats = filter_scan(batch_scan, (policy, opt_state), indices)\n        stats = jax.tree.map(jnp.mean, stats)\n        return policy, opt_state, stats\n\n    def train(\n"), (PPO, "            policy, opt_state, stats = self.train_epoch(\n                policy, opt_state, buffer, key=key\n            )\n            return (policy, opt_state), stats\n\n        (policy, opt_state), stats = filter_scan(\n            epoch_scan, (policy, opt_state), jr.split(key, self.num_epochs)\n        )", "            policy, opt_state, stats = self._epoch_on_flat(\n                policy, opt_state, flat_buffer, key=outer_key\n            )\n            return (policy, opt_state), stats\n\n        flat_buffer = buffer.flatten_axes()\n        outer_key = key\n        (policy, opt_state), stats = filter_scan(\n            epoch_scan, (policy, opt_state), jr.split(key, self.num_epochs)\n        )")),
